@@ -730,7 +730,9 @@ fn r_fastbconv_sk(tool: &RNSTool, a: &Aux, xs: &[BigU], all: bool, acc: &mut Acc
         ys.truncate(0);
         ys.extend([BigU::zero(), BigU::one(), a.bp.shr(1), a.bp.shr(1).add(&BigU::one()), a.bp.sub(&BigU::one())]);
     }
-    let es: Vec<i128> = vec![0, -1, 1, 2, -2, a.t.max(1) as i128, 1 << 32, -(1 << 32), e_max, e_max - 1, e_min, e_min + 1];
+    // quotients inside the range the specification covers, [|B|-1-m_sk/2, m_sk/2] (a 60-bit t lies inside it for the largest
+    // 61-bit m_sk only: demanding exactness at e = t for whatever prime the tool picks as m_sk was a false alarm, DESIGN §10)
+    let es: Vec<i128> = [0, -1, 1, 2, -2, a.t.max(1) as i128, 1 << 32, -(1 << 32), e_max, e_max - 1, e_min, e_min + 1].into_iter().filter(|e| (e_min..=e_max).contains(e)).collect();
     for &e in &es {
         for y in &ys {
             items.push(bi(y).add(&bi_b.mul(&BigI::from_i128(e))));
